@@ -6,7 +6,7 @@ import random
 import shutil
 
 from . import e2e_run as R, e2e_check as C
-from .common import WIRE, GOENV, run, scratch, rmtree, seed, log
+from .common import WIRE, GOENV, REPO, run, scratch, rmtree, seed, log
 
 MOD = "example.com/c"
 
@@ -47,7 +47,7 @@ class Workspace:
     def __init__(self):
         self.root = scratch("wvcmd")
         os.makedirs(self.root + "/_wire")
-        shutil.copy("/repo/wire.go", self.root + "/_wire/wire.go")
+        shutil.copy(REPO + "/wire.go", self.root + "/_wire/wire.go")
         open(self.root + "/_wire/go.mod", "w").write("module github.com/google/wire\n\ngo 1.12\n")
         open(self.root + "/go.mod", "w").write(
             "module %s\n\ngo 1.21\n\nrequire github.com/google/wire v0.0.0\n\nreplace github.com/google/wire => ./_wire\n" % MOD)
